@@ -81,8 +81,12 @@ def run(eng, rep, tier):
               "sentinel has been consumed (a grammar symbol spelled `$`) it raises IndexError", summ,
               site=(unguarded[0].site.to_json() if unguarded else None))
     gets = [ev for ev in own(summ) if ev.kind == "bcall" and ev.callee == "get"]
-    tbl_sub = [ev for ev in own(summ) if ev.kind == "subscript" and ev.recv is not None and
-               "parsing_table" in ast.unparse(ev.node.value)]
+    # the parsing table (and its rows) = what get_llone_parsing_table returned, whatever local holds it
+    tbl_locs = frozenset().union(*[ev.result.alias for ev, _ in calls(summ, "get_llone_parsing_table", own=True)
+                                   if ev.result is not None] or [frozenset()])
+    def _of_table(av):
+        return any(l[0] == t_[0] and l[1][:len(t_[1])] == t_[1] for l in av.alias for t_ in tbl_locs)
+    tbl_sub = [ev for ev in own(summ) if ev.kind == "subscript" and ev.recv is not None and tbl_locs and _of_table(ev.recv)]
     ob.decide("R6", "C14.1", fi, "table-lookups-use-get", len(gets) >= 2 and not tbl_sub,
               "table lookups use .get with defaults", "the parsing table is subscripted with input-derived keys", summ,
               site=(tbl_sub[0].site.to_json() if tbl_sub else None))
